@@ -64,7 +64,7 @@ def register2(reg):
                       ('property', f'result.line == {TOPF}.cursor.lineat(pos) and result.endline == {TOPF}.cursor.lineat({TOPF}.cursor.pos)'),
                       ('property', f'result.cursor == {TOPF}.cursor and result.alerts == {TOPF}.alerts')])
     contract(reg, f'{E}:ParserEngine.set_parseinfo', ['C06', 'C04', 'C12'], {'self': 'Ctx', 'node': 'Val', 'name': 'str', 'pos': 'int'}, ret='None',
-             verify=False, modifies=[], ensures=[],
+             verify=False, modifies=['self.ghost_stamped'], ensures=['self.ghost_stamped == node'],
              note='only adds the parseinfo entries to the node (hasattr-based); C04/C12 check that in bounded runs')
     # C06: the action receives the rule AST and its result replaces it; C11: keyword check first, iff @name
     KWN = '(uf_keyword_text(node).upper() if self._active_config.ignorecase else uf_keyword_text(node)) in self.keywords'
@@ -96,11 +96,13 @@ def register3(reg):
                                    'self._memos.mkeys[key] and is_failure(self._memos.mvals[key], "FailedLeftRecursion"))')])
     # rule_call: the caller's frames are untouched on every TatSu exit; a remembered outcome is replayed
     # without running the body; FailedSemantics becomes a parse failure (C06); the key identifies the callee (C04)
-    contract(reg, f'{E}:ParserEngine.rule_call', ['C01', 'C03', 'C04', 'C06', 'C11'],
+    contract(reg, f'{E}:ParserEngine.rule_call', ['C01', 'C03', 'C04', 'C06', 'C11', 'C12'],
              {'self': 'Ctx', 'ri': 'RuleInfoR', 'key': 'MemoKeyR'}, ret='RuleResultR',
-             modifies=['self.states.state_stack', 'self._memos'],
+             modifies=['self.states.state_stack', 'self._memos', 'self.ghost_stamped'],
              requires=REQ + ['key.ruleinfo == ri', 'memo_ok(self._memos, self.textlen)'],
              ensures=[('property', SAME), 'memo_ok(self._memos, self.textlen)', '0 <= result.newpos', 'result.newpos <= self.textlen',
+                      # C12: when the rule body ran, the parse information went to the node that is returned (the action's result)
+                      ('property', f'implies(not is_ok({MEMO_OLD}) and not is_err({MEMO_OLD}), self.ghost_stamped == result.node)'),
                       ('property', f'implies(is_ok({MEMO_OLD}), result == ok_res({MEMO_OLD}) and self._memos.mkeys == old_self._memos.mkeys and self._memos.mvals == old_self._memos.mvals)'),
                       ('property', f'not is_err({MEMO_OLD})')],
              raises={'ParseException': [('property', SAME), 'memo_ok(self._memos, self.textlen)']},
@@ -126,7 +128,7 @@ def register4(reg):
     SEED = ('implies({c}, self._results.mkeys[key] and is_ok(self._results.mvals[key]) and '
             'ok_res(self._results.mvals[key]).newpos == {r}.newpos and spec_cstfinal(ok_res(self._results.mvals[key]).node) == spec_cstfinal({r}.node))')
     contract(reg, f'{E}:ParserEngine.recursive_call', ['C03', 'C04'], {'self': 'Ctx', 'ri': 'RuleInfoR', 'key': 'MemoKeyR'}, ret='RuleResultR',
-             modifies=['self.states.state_stack', 'self._memos', 'self._results'],
+             modifies=['self.states.state_stack', 'self._memos', 'self._results', 'self.ghost_stamped'],
              requires=REQ + ['key.ruleinfo == ri', MOK, ROK],
              invariants={0: [SAME, MOK, ROK, 'lastpos >= -1', f'lastpos <= {LEN}', f'initial == {OTOP}.cursor.pos',
                              'implies(lastpos < 0, is_failure(result, "FailedLeftRecursion"))',
@@ -143,7 +145,7 @@ def register4(reg):
     WS = f'uf_ws_end({OTOP}.cursor)'
     START = f'({OTOP}.cursor.pos if ri.is_tokn else {WS})'
     contract(reg, f'{E}:ParserEngine.call', ['C01', 'C03', 'C04', 'C05', 'C06', 'C09'], {'self': 'Ctx', 'ri': 'RuleInfoR'}, ret='Val',
-             modifies=['self.states.state_stack', 'self.states.callstack', 'self._memos', 'self._results'],
+             modifies=['self.states.state_stack', 'self.states.callstack', 'self._memos', 'self._results', 'self.ghost_stamped'],
              requires=REQ + [MOK, ROK],
              ensures=[f'top_only({S}, {OS})', f'spec_same_text({OTOP}, {TOP})',
                       ('property', f'{TOP}.cst == spec_cstadd({OTOP}.cst, result)'),
